@@ -19,7 +19,7 @@ class Tape:
     def __init__(self, rng, boring=False):
         self.rng, self.boring = rng, boring
 
-    def pick(self, n):
+    def pick(self, n, kind=None):
         return 0 if self.boring else self.rng.randrange(n)
 
     def chance(self, p):
@@ -49,7 +49,7 @@ def node(t, off, kids=None, val=None, name="", ic=False, inv=False, chars=None, 
 # ---- layout ---------------------------------------------------------------------------------
 def ws(o, t, newline_ok=True, must=False):
     """__ : ( Whitespace / EOL / Comment )*"""
-    n = t.pick(6)
+    n = t.pick(6, "ws")
     if n == 0 and not must:
         return
     if n <= 2 or (must and n == 0):
@@ -283,7 +283,7 @@ def render_grammar(g, t):
             rn["val"] = list(raw.encode())
             rn["ic"] = True
             ws(o, t)
-        o.w(["<-", "=", "←", "⟵"][t.pick(4)])
+        o.w(["<-", "=", "←", "⟵"][t.pick(4, "defop")])
         ws(o, t)
         rn["kids"] = [render_expr(o, t, r["e"], 0)]
         kids.append(rn)
@@ -297,7 +297,7 @@ def render_grammar(g, t):
 
 def term(o, t, last=False):
     """EOS: __ ';'  /  _ SingleLineComment? EOL  /  __ EOF"""
-    n = t.pick(5 if last else 4)
+    n = t.pick(5 if last else 4, "term")
     if n == 0:
         o.w("\n")
     elif n == 1:
